@@ -66,6 +66,10 @@ class Executor(ExprMixin, StmtMixin, CallMixin, ContractMixin):
         self.feas_checks = 0
         self.base_state = State()
         self.cur_line = None
+        self.cur_state = None
+        self.contract_env = None
+        self.asserts_seen = set()
+        self.stmt_ordinals = {}
 
     # override: no forking inside contract / spec expressions
     def eval_BoolOp(self, st, e):
@@ -124,6 +128,26 @@ class Executor(ExprMixin, StmtMixin, CallMixin, ContractMixin):
         visit(fnode.body)
         return ords
 
+    def number_stmts(self, fnode):
+        """Ordinal of each statement among the statements of its kind (source order)."""
+        counts = {}
+        ords = {}
+
+        def visit(stmts):
+            for s in stmts:
+                k = type(s).__name__
+                ords[id(s)] = counts.get(k, 0)
+                counts[k] = counts.get(k, 0) + 1
+                for field in ('body', 'orelse', 'finalbody'):
+                    sub = getattr(s, field, None)
+                    if sub:
+                        visit(sub)
+                if isinstance(s, ast.Try):
+                    for h in s.handlers:
+                        visit(h.body)
+        visit(fnode.body)
+        return ords
+
     def initial_state(self, c, fs):
         st = State()
         st.alloc0 = z3.Int('alloc0')
@@ -169,6 +193,7 @@ class Executor(ExprMixin, StmtMixin, CallMixin, ContractMixin):
         self.contract = c
         self.cur_module = self.src.module(fs.module)
         self.loop_ordinals = self.number_loops(fs.node)
+        self.stmt_ordinals = self.number_stmts(fs.node)
         try:
             st = self.initial_state(c, fs)
             self.entry_env = dict(st.env)
@@ -187,7 +212,10 @@ class Executor(ExprMixin, StmtMixin, CallMixin, ContractMixin):
             # frame
             self.frame = []
             for ref, field, guard in self.eval_locations(st, c.modifies, st.env):
-                self.frame.append((ref.t, field))
+                if guard == 'ALL':
+                    self.frame.append(('ALL', field, ref.ty.cls))
+                else:
+                    self.frame.append((ref.t, field))
             self.frame_carries = getattr(c, 'frame_carries', None)
             if is_init:
                 st.init_assigned = set()
@@ -200,6 +228,9 @@ class Executor(ExprMixin, StmtMixin, CallMixin, ContractMixin):
                 rep.paths = len(ends)
                 for e in ends:
                     self.check_exit(e, c, fs, is_init)
+            missing = [a for a in c.asserts if id(a) not in self.asserts_seen]
+            if missing and not canary:
+                raise OutsideSubset('ghost assertion target not found in the body: ' + ', '.join(a.label for a in missing))
             rep.status = 'generated'
         except OutsideSubset as ex:
             rep.status = 'outside-subset'
